@@ -211,8 +211,70 @@ def forge_auth_response(mitm, w, request, forge):
     return W.enc_message(hdr, [], sk={'ke': k['sk_er'], 'ka': k['sk_ar'], 'integ': integ, 'iv': b'\x67' * 16, 'inner': inner})
 
 
+_TEMPLATE = {}
+
+
+def auth_request_template(auth):
+    """SA / TSi / TSr / mode payloads of an honest IKE_AUTH request in the default configuration (the attacker copies what an initiator would ask for)."""
+    if auth not in _TEMPLATE:
+        w = wd.World(seed=77, opts={'ike_encr': ['aes256', 'aes128'], 'auth': auth})
+        try:
+            log = w.establish('A')
+            a = w.sas('A')[0]
+            m = W.dec_message(log[2][1], probes.keys_of(a.my_crypto))
+            _TEMPLATE[auth] = [dict(p) for p in m['inner'] if p['t'] in (W.SA, W.TSI, W.TSR) or (p['t'] == W.NOTIFY and p['ntype'] == 16391)]
+        finally:
+            w.close()
+    return [dict(p) for p in _TEMPLATE[auth]]
+
+
+class FakeInitiator:
+    """An attacker that starts IKE_SA_INIT itself (own DH scalar and nonce) and so owns the keys of the half-open IKE_SA at the responder."""
+    X = 0x3333333333
+
+    def __init__(self, w, old_auth):
+        self.w, self.old_auth = w, old_auth
+        self.spi_i, self.ni = b'EVILINIT', b'\xe3' * 32
+
+    def msg1(self):
+        prop = {'num': 1, 'proto': 1, 'spi': b'', 'transforms': [{'type': 1, 'id': 12, 'keylen': 256}, {'type': 3, 'id': 12, 'keylen': None},
+                                                              {'type': 2, 'id': 5, 'keylen': None}, {'type': 4, 'id': 19, 'keylen': None}]}
+        self.req = W.enc_message({'spi_i': self.spi_i, 'spi_r': b'\0' * 8, 'xchg': 34, 'response': False, 'initiator': True, 'mid': 0},
+                                 [{'t': W.SA, 'proposals': [prop]}, {'t': W.KE, 'group': 19, 'data': kdf_ref.dh_public(19, self.X)}, {'t': W.NONCE, 'data': self.ni}])
+        return self.req
+
+    def msg3(self, res, forge, auth):
+        m = W.dec_message(bytes(res))
+        pl = {p['t']: p for p in m['payloads']}
+        if W.SA not in pl or W.KE not in pl:
+            raise common.MachineryError(f'the responder did not answer the attacker\'s IKE_SA_INIT with SA/KE/Nonce: {[p["t"] for p in m["payloads"]]}')
+        tr = {t['type']: t for t in pl[W.SA]['proposals'][0]['transforms']}
+        nr, spi_r = pl[W.NONCE]['data'], m['spi_r']
+        k = kdf_ref.ike_keys(tr[2]['id'], tr[3]['id'], tr[1]['keylen'], self.ni, nr, self.spi_i, spi_r, kdf_ref.dh_shared(19, self.X, pl[W.KE]['data']))
+        prf_id, integ = tr[2]['id'], tr[3]['id']
+        ident = self.w.conf['B']['B-A']['peer_auth']['id'].encode()
+        id_type = 3 if b'@' in ident else 2
+        octets = kdf_ref.signed_octets(prf_id, self.req, nr, k['sk_pi'], id_type, ident)
+        tmpl = auth_request_template(auth)
+        for p in tmpl:
+            if p['t'] == W.SA:
+                p['proposals'] = [dict(p['proposals'][0], spi=b'\xee\xee\xee\x02')]
+        hdr = {'spi_i': self.spi_i, 'spi_r': spi_r, 'response': False, 'initiator': True, 'mid': 1}
+        seal = lambda xchg, inner: W.enc_message(dict(hdr, xchg=xchg), [], sk={'ke': k['sk_ei'], 'ka': k['sk_ai'], 'integ': integ, 'iv': b'\x68' * 16, 'inner': inner})
+        if forge == 'ccsa-instead':
+            return seal(36, [p for p in tmpl if p['t'] == W.SA] + [{'t': W.NONCE, 'data': b'\xe4' * 32}] + [p for p in tmpl if p['t'] != W.SA])
+        if forge == 'info-instead':
+            return seal(37, [])
+        a = {'empty': (2, b''), 'random': (2, bytes(range(32))), 'pskempty': (2, kdf_ref.psk_auth(prf_id, b'', octets)), 'pskid': (2, kdf_ref.psk_auth(prf_id, ident, octets)),
+             'replay': (2 if auth == 'psk' else 1, self.old_auth), 'rsagarbage': (1, b'\x17' * 256), 'copyi': (2, kdf_ref.psk_auth(prf_id, b'alice', octets)), 'noauth': None,
+             'control-with-the-real-psk': (2, kdf_ref.psk_auth(prf_id, str(self.w.conf['B']['B-A']['peer_auth'].get('psk', '')).encode(), octets))}[forge]
+        inner = [{'t': W.IDI, 'id_type': id_type, 'data': ident}] + ([{'t': W.AUTH, 'method': a[0], 'data': a[1]}] if a else []) + tmpl
+        return seal(35, inner)
+
+
 def run_attack(actions, leaf, cred_i, cred_r, auth, seed, old_auth, r_variant=None):
     opts = {'ike_encr': ['aes256', 'aes128'], 'auth': auth}
+    auth_request_template(auth)          # (its own world: before this one is made the current one)
     w = wd.World(opts=opts, seed=seed, start=False)
     if not cred_i:      # the responder's idea of the initiator's credential / identity is wrong
         if auth == 'psk':
@@ -237,7 +299,12 @@ def run_attack(actions, leaf, cred_i, cred_r, auth, seed, old_auth, r_variant=No
             trace.append({k: v for k, v in a.items()})
             if cur is None:
                 break
-            if name == 'ImpMsg2':
+            if name == 'ImpIMsg1':
+                fake = FakeInitiator(w, old_auth)
+                cur = w.dispatch('B', fake.msg1(), 'A')
+            elif name == 'ImpIMsg3':
+                cur = w.dispatch('B', fake.msg3(bytes(cur), a['forge'], auth), 'A')
+            elif name == 'ImpMsg2':
                 res = w.dispatch('B', mitm.msg1(cur, []), 'A')         # the real responder only serves as a template for the message format
                 cur = w.dispatch('A', mitm.msg2(bytes(res), ['nr', 'ker', 'spir'], 'keep'), 'B')
             elif name == 'ImpMsg4':
@@ -290,6 +357,10 @@ def run(tier, replay=None):
                               common.SEED, old_auth)
     if not (got and got['stI'] and got['instI']):
         raise common.MachineryError(f'impersonation harness: a response authenticated with the real credential is not accepted ({got}) - the forged ones prove nothing')
+    got, want, _ = run_attack([{'a': 'ImpIMsg1'}, {'a': 'ImpIMsg3', 'forge': 'control-with-the-real-psk'}], {'stI': 'INIT_REQ_SENT', 'stR': 'DELETED', 'installed': []}, True, True, 'psk',
+                              common.SEED, old_auth)
+    if not (got and got['stR'] and got['instR']):
+        raise common.MachineryError(f'impersonation harness: a request authenticated with the real credential is not accepted ({got}) - the forged ones prove nothing')
     outcomes = {}
     for cred_i, cred_r in ((True, True), (False, True), (True, False), (False, False)):
         res = tlc(cfg(cred_i=cred_i, cred_r=cred_r))
@@ -328,7 +399,7 @@ def run(tier, replay=None):
                     v.violation(f'man in the middle {trace}: {want}', {'trace': trace}, signature={'component': 'mitm:escape'})
                 elif got != want:
                     worse = (got['stI'] and not want['stI']) or (got['stR'] and not want['stR']) or (got['instI'] and not want['instI']) or (got['instR'] and not want['instR'])
-                    v.violation(f'man in the middle ({auth}, CredIOk={cred_i}, CredROk={cred_r}) {[(t["a"], t.get("s"), t.get("chosen"), t.get("rw")) for t in trace]}: '
+                    v.violation(f'man in the middle ({auth}, CredIOk={cred_i}, CredROk={cred_r}) {[(t["a"], t.get("s"), t.get("chosen"), t.get("rw") or t.get("forge")) for t in trace]}: '
                                 f'outcome {got}, specification {want}', {'trace': trace, 'got': got, 'want': want},
                                 signature={'component': 'mitm:established-or-installed' if worse else 'mitm:fails-where-spec-succeeds'})
                 if len(cov['samples']) < 2 and len(trace) >= 3 and trace[0].get('s'):
